@@ -190,15 +190,17 @@ class WeakForms(_Simu):
             u = results["u"]
             self._Set_solutions(self.problemType, u)
 
+        # an iteration saved under another algorithm (e.g. a steady state saved before a
+        # transient analysis) does not hold the rates: they are zero, as in Elastic and Thermal
         elif self.algo == AlgoType.parabolic:
             u = results["u"]
-            v = results["v"]
+            v = results.get("v", np.zeros_like(u))
             self._Set_solutions(self.problemType, u, v)
 
         elif self.algo in AlgoType.Get_Hyperbolic_Types():
             u = results["u"]
-            v = results["v"]
-            a = results["a"]
+            v = results.get("v", np.zeros_like(u))
+            a = results.get("a", np.zeros_like(u))
             self._Set_solutions(self.problemType, u, v, a)
 
         else:
